@@ -247,11 +247,11 @@ theorem interpTorchT_linear : ∀ (D : Nat) (v w : Int → ℝ) (a b t : ℝ),
 /-- **iradon_torch is linear in the sinogram** (model, ℝ): circle-to-square padding, FFT
 filtering, interpolation, accumulation, mask and scaling — for every shape, angle set,
 filter and circle flag. -/
-theorem iradonTorch_linear (a b : ℝ) (s1 s2 : List (List ℝ)) (h : SameShape s1 s2)
-    (thetas : Option (List ℝ)) (name : FilterName) (circle : Bool) :
-    iradonTorch (linRows a b s1 s2) thetas name circle
-      = linRows a b (iradonTorch s1 thetas name circle) (iradonTorch s2 thetas name circle) := by
-  unfold iradonTorch
+theorem iradonTorchOut_linear (a b : ℝ) (s1 s2 : List (List ℝ)) (h : SameShape s1 s2)
+    (thetas : Option (List ℝ)) (name : FilterName) (circle : Bool) (out : Nat) :
+    iradonTorchOut (linRows a b s1 s2) thetas name circle out
+      = linRows a b (iradonTorchOut s1 thetas name circle out) (iradonTorchOut s2 thetas name circle out) := by
+  unfold iradonTorchOut
   have hA := linRows_length (a := a) (b := b) h
   have hA2 : s2.length = s1.length := h.length_eq.symm
   have hN := linRows_head_length (a := a) (b := b) h
@@ -275,6 +275,21 @@ theorem iradonTorch_linear (a b : ℝ) (s1 s2 : List (List ℝ)) (h : SameShape 
       (fun x y hxy => filterRow_linear _ _ _ a b x y hxy) (fun x y hxy => filterRow_length _ _ _ x y hxy) sh0
     rw [e1]
     exact backproject_linear _ interpTorchT_linear _ a b _ _ sh1 _ _ _
+
+theorem iradonTorch_linear (a b : ℝ) (s1 s2 : List (List ℝ)) (h : SameShape s1 s2)
+    (thetas : Option (List ℝ)) (name : FilterName) (circle : Bool) :
+    iradonTorch (linRows a b s1 s2) thetas name circle
+      = linRows a b (iradonTorch s1 thetas name circle) (iradonTorch s2 thetas name circle) := by
+  unfold iradonTorch
+  rw [linRows_head_length (a := a) (b := b) h, ← h.head_length]
+  exact iradonTorchOut_linear a b s1 s2 h thetas name circle _
+
+theorem iradonSkOut_linear (a b : ℝ) (s1 s2 : List (List ℝ)) (h : SameShape s1 s2)
+    (thetas : Option (List ℝ)) (name : FilterName) (circle : Bool) (out : Nat) :
+    iradonSkOut (linRows a b s1 s2) thetas name circle out
+      = linRows a b (iradonSkOut s1 thetas name circle out) (iradonSkOut s2 thetas name circle out) := by
+  rw [← iradonOut_agree, ← iradonOut_agree, ← iradonOut_agree]
+  exact iradonTorchOut_linear a b s1 s2 h thetas name circle out
 
 theorem iradonSk_linear (a b : ℝ) (s1 s2 : List (List ℝ)) (h : SameShape s1 s2)
     (thetas : Option (List ℝ)) (name : FilterName) (circle : Bool) :
